@@ -31,6 +31,9 @@ type rgOp struct {
 	ID2   uint64 // merge: source
 	State uint8
 	Key   []byte // split key
+	// split: the child names no peer on this store, so the peer builder rejects it
+	// after the parent was shrunk and SplitRegion has to put the parent back
+	Unhosted bool
 }
 
 type rgCase struct {
@@ -114,8 +117,12 @@ func rgRun(c *corr.Ctx, d rgCase, serial int) (corr.Case, error) {
 			err = rs.VerifApplyAdmin(&pb.AdminCommand{Type: pb.AdminCommand_SPLIT, Split: &pb.SplitCommand{
 				ParentRegionId: op.ID, SplitKey: op.Key,
 				Child: &pb.RegionMeta{Id: ch.ID, StartKey: ch.StartKey, EndKey: ch.EndKey, EpochVersion: ch.Epoch.Version,
-					EpochConfVersion: ch.Epoch.ConfVersion, Peers: []*pb.RegionPeer{{StoreId: 1, PeerId: nextPeer}}}}})
+					EpochConfVersion: ch.Epoch.ConfVersion, Peers: []*pb.RegionPeer{{StoreId: rgHost(op.Unhosted), PeerId: nextPeer}}}}})
 			term = fmt.Sprintf("Sp %d %s %s", op.ID, corr.Hex(op.Key), op.Meta.coq())
+			if op.Unhosted {
+				term = "Su" + term[2:]
+				c.Count("split_unhosted")
+			}
 			if err == nil {
 				admin++
 				c.Count("split_ok")
@@ -237,6 +244,14 @@ func runRegions(c *corr.Ctx) error {
 					return err
 				}
 				sweep++
+				// the same split with a child that cannot be hosted here, then a hosted one
+				u := rgCase{Ops: append(append([]rgOp(nil), setup...), rgOp{Kind: "split", ID: t, Key: k, Unhosted: true,
+					Meta: rgMeta{ID: 50, Start: nil, End: parent.End, Ver: 1, Conf: 1}},
+					rgOp{Kind: "split", ID: t, Key: k, Meta: rgMeta{ID: 51, Start: nil, End: parent.End, Ver: 1, Conf: 1}})}
+				if err := emit(u); err != nil {
+					return err
+				}
+				sweep++
 			}
 		}
 	}
@@ -337,7 +352,7 @@ func runRegions(c *corr.Ctx) error {
 				if c.Rng.Intn(6) == 0 {
 					child.Start = corr.Pick(c.Rng, rgKeys) // explicit child start: the split key is ignored
 				}
-				d.Ops = append(d.Ops, rgOp{Kind: "split", ID: parent, Key: key, Meta: child})
+				d.Ops = append(d.Ops, rgOp{Kind: "split", ID: parent, Key: key, Meta: child, Unhosted: c.Rng.Intn(5) == 0})
 			case x < 17:
 				d.Ops = append(d.Ops, rgOp{Kind: "remove", ID: pick()})
 			case x < 19:
@@ -360,6 +375,13 @@ type rng struct{ s, e []byte }
 
 func rgShadowEnd(ops []rgOp, id uint64) []byte { return rgShadow(ops)[id].e }
 
+func rgHost(unhosted bool) uint64 {
+	if unhosted {
+		return 7
+	}
+	return 1
+}
+
 func rgShadow(ops []rgOp) map[uint64]rng {
 	m := map[uint64]rng{}
 	for _, op := range ops {
@@ -370,7 +392,7 @@ func rgShadow(ops []rgOp) map[uint64]rng {
 			delete(m, op.ID)
 		case "split":
 			p, ok := m[op.ID]
-			if !ok {
+			if !ok || op.Unhosted {
 				continue
 			}
 			k := op.Meta.Start
